@@ -937,7 +937,7 @@ class KtensorModes(Op):
     """ktensor operations taking a mode or a component permutation (several are in place)"""
     name = "ktensor_modes"
     covers = (("ktensor", "arrange"), ("ktensor", "normalize"), ("ktensor", "redistribute"), ("ktensor", "nvecs"),
-              ("ktensor", "extract"), ("ktensor", "tolist"), ("ktensor", "update"))
+              ("ktensor", "extract"), ("ktensor", "tolist"))
 
     def gen(self, rng, tier):
         out = []
@@ -1381,8 +1381,16 @@ def run_impl(c):
 
 class Malformed(Family):
     name = "malformed"
-    theorems = ()
-    quick_cap = 2600
+    theorems = ("C19_rejects_dimscheck", "C19_rejects_ttv", "C19_rejects_ttm", "C19_rejects_mttkrp", "C19_rejects_innerprod",
+                "C19_rejects_elementwise", "C19_rejects_tenmat_arith", "C19_rejects_ttt", "C19_rejects_contract",
+                "C19_rejects_collapse", "C19_rejects_scale", "C19_rejects_permute", "C19_rejects_reshape",
+                "C19_rejects_to_tenmat", "C19_rejects_tensor", "C19_rejects_sptensor", "C19_rejects_from_aggregator",
+                "C19_rejects_extract", "C19_rejects_ktensor", "C19_rejects_ttensor", "C19_rejects_sumtensor",
+                "C19_rejects_tenmat", "C19_rejects_sptenmat", "C19_rejects_from_vector", "C19_rejects_kmode",
+                "C19_rejects_karrange", "C19_rejects_kextract", "C19_receiver_unchanged_kmode",
+                "C19_receiver_unchanged_karrange", "C19_rejects_mask", "C19_rejects_khatrirao", "C19_rejects_cp_als",
+                "C19_rejects_cp_apr", "C19_rejects_tucker_als", "C19_rejects_hosvd", "C19_rejects_gcp_opt",
+                "C19_rejects_import_data")
 
     def gen(self, rng, tier):
         out = []
@@ -1431,6 +1439,9 @@ class Malformed(Family):
                 # over-rejection: not a C19 violation; the model of the validation prefix must agree, though
                 tags.append(f"over-rejected:{c['opname']}:{exc}")
                 v = Verdict("ok", "", impl, m, {"pre": wf}, tags, nontrivial=False)
+            elif not m.get("unchanged", True):
+                v = Verdict("corr", f"the model of {c['opname']} changes the receiver in its rejecting branch",
+                            impl, m, {"pre": wf}, tags)
             elif (m["validate"] == "reject") != raised:
                 v = Verdict("corr", f"validate_{c['opname']} = {m['validate']} but the implementation "
                                     f"{'raised' if raised else 'answered'}", impl, m, {"pre": wf}, tags)
@@ -1438,6 +1449,7 @@ class Malformed(Family):
         return out
 
     def shrink(self, case):
+        """smaller shapes do not exist for most violations (they live on particular extents); try dropping a mode"""
         return []
 
 
